@@ -25,12 +25,13 @@ CLAIMED = {
    technique="Lean 4 proof (refinement of the list model to a coalescing specification, induction over the chunk list) + differential correspondence"),
  'C18': dict(
    text="Machine-checked proof (Lean 4) that the streaming structure of the bundled SHA-256 / SHA-512 / SHA-512-128 code (update "
-        "buffer arithmetic, final padding, counter widths generated from the C source) computes the FIPS 180-4 digest for every "
+        "buffer arithmetic, final padding, counter widths generated from the C source) AND of the bundled SHA-1 code (SHA1_Update, "
+        "SHA1_Final with its padding fed through update byte by byte and its 61-bit byte counter: bundled_sha1, from stream1_eq_spec) "
+        "computes the FIPS 180-4 digest for every "
         "message below 2^61 bytes and every segmentation into update calls, generically in the compression function; generated "
         "K tables / initial values proved equal to the FIPS constants; three-way correspondence (bundled build, OpenSSL build, Lean).",
    design_ref="DESIGN.md section 7 C18",
-   note="Partial where stated: SHA-1's bundled update/final are modelled and corresponded but their equality with the spec is not proved; "
-        "the compression functions are compared on explored messages (they are the Lean spec's own executable definitions); OpenSSL is a "
+   note="The compression functions are compared on explored messages (they are the Lean spec's own executable definitions); OpenSSL is a "
         "trusted external; messages >= 2^29 bytes are compared between the C builds and hashlib only.",
    technique="Lean 4 proof (invariant over update calls, refinement of streaming hash to Merkle-Damgard spec; decide on generated tables) + three-way differential correspondence"),
  'C06': dict(
